@@ -155,3 +155,76 @@ class Q(Semiring):
 
 Q.zero = Q(0)
 Q.one = Q(1)
+
+
+class NCPoly:
+    """Truncated free NON-commutative semiring N<x_1..x_k> / (length > D): formal sums of words.
+    Multiplication concatenates, so the order of factors is observable."""
+
+    __slots__ = ("t",)
+    D = 5
+
+    def __init__(self, t=None):
+        self.t = t or {}
+
+    @classmethod
+    def var(cls, i):
+        return cls({(i,): 1})
+
+    def __add__(self, o):
+        if not isinstance(o, NCPoly):
+            return NotImplemented
+        t = dict(self.t)
+        for m, c in o.t.items():
+            t[m] = t.get(m, 0) + c
+        return NCPoly(t)
+
+    def __mul__(self, o):
+        if not isinstance(o, NCPoly):
+            return NotImplemented
+        D = NCPoly.D
+        t = {}
+        for m1, c1 in self.t.items():
+            for m2, c2 in o.t.items():
+                if len(m1) + len(m2) > D:
+                    continue
+                m = m1 + m2
+                t[m] = t.get(m, 0) + c1 * c2
+        return NCPoly(t)
+
+    def __eq__(self, o):
+        return isinstance(o, NCPoly) and self.t == o.t
+
+    def __ne__(self, o):
+        return not self == o
+
+    def __hash__(self):
+        return hash(frozenset(self.t.items()))
+
+    def star(self):
+        if () in self.t:
+            raise StarDiverges("star of a series with constant term")
+        out = NCPoly.one
+        p = NCPoly.one
+        for _ in range(NCPoly.D):
+            p = p * self
+            if not p.t:
+                break
+            out = out + p
+        return out
+
+    def metric(self, o):
+        return 0 if self == o else 1
+
+    def __repr__(self):
+        if not self.t:
+            return "0"
+        return " + ".join((f"{c}*" if c != 1 or not m else "") + ("".join(f"<{i}>" for i in m) or "1") for m, c in sorted(self.t.items()))
+
+    @classmethod
+    def chart(cls, *a, **k):
+        return Chart(cls, *a, **k)
+
+
+NCPoly.zero = NCPoly()
+NCPoly.one = NCPoly({(): 1})
